@@ -147,6 +147,29 @@ def run(ctx):
                                      "error %s, expected %d" % (cu, cg, ag, d and d["error_num"], want), "client": (cu, cg), "auth_gid": ag})
         os.unlink(flag)
         cf.stop()
+    # "the group database, via the user database" AS LAST LOADED: an account is deleted and re-created under another UID, its
+    # old UID goes to somebody else; after the reload the NEW uid is the member and the old one is not
+    db2 = {"groups": list(db["groups"]) + [(705, ["hal"])], "users": list(db["users"]) + [("hal", 3020)]}
+    cr.d.write_nss(db2)
+    cr.d.sighup(settle=0.5)
+    db3 = {"groups": db2["groups"], "users": [u for u in db2["users"] if u[0] != "hal"] + [("hal", 3021), ("ivy", 3020)]}
+
+    def may(uid):
+        r_, _ = rig.encode(cr.d.sock, uid=4242, gid=4243, auth_gid=705, data=b"for group 705")
+        if r_ is None or r_["error_num"] != 0:
+            return None
+        q_, _ = rig.decode(cr.d.sock, r_["data"], uid=uid, gid=60)
+        return None if q_ is None else q_["error_num"]
+    first = (may(3020), may(3021))
+    cr.d.write_nss(db3)
+    cr.d.sighup(settle=0.5)
+    second = (may(3020), may(3021))
+    ctx.count(("uid-reassigned", first, second))
+    dist["uid-reassigned"] = 1
+    if first != (0, 18) or second != (18, 0):
+        fails.append({"why": "account 'hal' (member of group 705) re-created under another UID across a reload: before the change uid 3020/3021 get "
+                             "%s (expected (0, 18)), after the reload %s (expected (18, 0)): the decision must follow the databases as last loaded"
+                             % (first, second), "case": "uid-reassigned"})
     import conc
     pp, prep, pn = conc.peercred_fault_phase(ctx, label="c04pc")
     dist["peercred-fault"] = pn
